@@ -148,7 +148,7 @@ def state_of(facts, backs=None):
 
 
 def op_modes(vetoes, nops):
-    """mixed transactions (harness store_c16s.go): per operation (context b|s|n|u|x|y, swallow, decoration) from the pseudo
+    """mixed transactions (harness store_c16s.go): per operation (context b|s|n|u|x|y or p|q|r = deferred into a pre-commit action: store_c16w9.go, swallow, decoration) from the pseudo
     veto '@m' ; None for an ordinary transaction"""
     for st, _, i in vetoes:
         if st == "@m":
@@ -159,6 +159,22 @@ def op_modes(vetoes, nops):
                 out.append((m[0], m[1] == "w", m[2]) if len(m) == 3 else ("b", False, "-"))
             return out
     return None
+
+
+PRECOMMIT_REG = {"p": "the ORDINARY base context (ctx.AddPreCommitAction)",
+                 "q": "a system context derived from it (ctx.GetSystemContext().AddPreCommitAction)",
+                 "r": "a system context derived from it (boltz.NewSystemMutateContext(ctx).AddPreCommitAction)"}
+
+
+def precommit_note(modes, j):
+    """operations deferred into pre-commit actions (harness store_c16w9.go, context modes p / q / r of a mixed transaction): the
+    operation runs with the context the library hands to the action; its kind is that of the context the action was registered
+    through. The note names every action of the transaction, in registration order"""
+    if modes is None or modes[j][0] not in PRECOMMIT_REG:
+        return ""
+    acts = ["op %d through %s" % (i, PRECOMMIT_REG[m[0]]) for i, m in enumerate(modes) if m[0] in PRECOMMIT_REG]
+    return (" [the operation ran inside a PRE-COMMIT ACTION registered through %s, with the context the library handed to the "
+            "action; pre-commit actions of this transaction in registration order: %s]" % (PRECOMMIT_REG[modes[j][0]], "; ".join(acts)))
 
 
 def swallow_tokens(tx):
@@ -232,6 +248,14 @@ def oracle(sch, txs, io, mo):
                             "LoadById before/after: %s. A caller that does not roll back (reads in the same transaction, or "
                             "ignores the error and commits) sees a system entity changed from an ordinary context"
                             % (sch.root(ops[j]["store"]), ops[j]["id"], j, ops[j]["store"], n, paths, rb), k))
+        # a pre-commit action that returned an error fails the transaction (nothing of it is committed): the refusal of an operation
+        # deferred into an action reaches the caller like the refusal of an operation of the body
+        if modes is not None and a["commit"]:
+            for j, op in enumerate(ops):
+                if j < len(a["results"]) and modes[j][0] in PRECOMMIT_REG and a["results"][j] != "ok":
+                    out.append(("C16:failed-precommit-action-committed", "op %d (%s through %s, id %s) ran inside a pre-commit action and "
+                                "returned an error (%s), but the transaction was committed%s"
+                                % (j, op["kind"], op["store"], op.get("id"), a["results"][j], precommit_note(modes, j) + via), k))
         # (i) through an ordinary context no operation on a system entity of a constrained family succeeds; the stored flag
         # is followed through the operations of the transaction (a system-context operation may delete / re-create an id)
         flag_now = dict((key, e["flag"]) for key, e in prev.items())
@@ -245,7 +269,7 @@ def oracle(sch, txs, io, mo):
                 root = sch.root(op["store"])
                 ctxt = " (after a system context had been derived from the same context object earlier in the transaction)" \
                     if derived_before else ""
-                ctxt += via + restored
+                ctxt += precommit_note(modes, j) + via + restored
                 if not levels[root][0]:
                     ctxt += " [the constraint is registered on the child store %s only]" % child_only
                 if op["kind"] == "C" and op["sys"]:
@@ -469,7 +493,12 @@ def main(argv):
         "cascades and an extended child; after ~50% of the successful creates / updates the harness increments link counts "
         "on the entity towards the entities of the other store (1-2 per target), so that deletes meet entities with and "
         "without links / counts: the refusal recorded by ProcessBeforeDelete must survive the link clean-up of every "
-        "collection kind. Non-trivial: the history updates or deletes an existing "
+        "collection kind. Ninth strengthening (store_c16w9.go): ~9% of the generated transactions DEFER their last 1-3 operations "
+        "into PRE-COMMIT ACTIONS registered through the ordinary base context (mode p) or a system context derived from it "
+        "(q GetSystemContext, r NewSystemMutateContext; only operations whose outcome does not depend on the context kind) and "
+        "run them with the context the library hands to the action: an operation on a system entity registered through the "
+        "ordinary context is refused and fails the transaction whatever else registered an action, in either order, also "
+        "under joined entry points; a failing action never commits. Non-trivial: the history updates or deletes an existing "
         "system entity of a constrained family (also by DeleteWhere), or a refusal was swallowed.",
         nontrivial=nontrivial)
     if not proof_ok:
